@@ -29,7 +29,14 @@ def leaves(schema):
                 stack.extend(s[k])
                 nested = True
         if not nested or any(k in s for k in ("enum", "type", "pattern")):
-            out.append(s)
+            if isinstance(s.get("type"), list):
+                # JSON-schema type list: one alternative per listed type
+                for t in s["type"]:
+                    one = dict(s)
+                    one["type"] = t
+                    out.append(one)
+            else:
+                out.append(s)
     return out
 
 
@@ -58,6 +65,10 @@ def slot_facts(schema):
         item_binding=BIND_PAT in item_pats,
         free_string=any(l.get("type") == "string" and "enum" not in l and "pattern" not in l for l in lv),
         known=bool(schema),
+        # a keyword with the single alternative "free string": every string value is a free string (quoted),
+        # however much it may look like an expression, a regex or a binding
+        plain_string=(len(lv) == 1 and lv[0].get("type") == "string" and "pattern" not in lv[0] and "enum" not in lv[0]
+                      and lv[0].get("description") != "expression"),
     )
 
 
@@ -131,7 +142,7 @@ def string_text_ok(facts, attr, v, q, text):
         S.and_(facts["regex"], wrapped(v, "/", "/")),
         S.and_(attr == "expression", wrapped(v, "{", "}")),
     )
-    may_verbatim = looks_special(v)
+    may_verbatim = False if facts.get("plain_string") else looks_special(v)
     return S.ite(
         # an enumerated word is written bare; the statement does not fix its letter case (C01 allows the
         # case of bare enumerated values to change), so the word as stored and its upper-case form both count
